@@ -1,1 +1,3 @@
 import FcpProps.C01
+import FcpProps.C02
+import FcpProps.C16
